@@ -385,7 +385,7 @@ func (r *scanRequest) Convert() (nodeIdx uint16, sreq *simpleRequest) {
 	sreq.RegisterHook(func(req *simpleRequest) {
 		resp := req.Response()
 		// unexpected response
-		if resp.Type != Array {
+		if resp.Type != Array || len(resp.Array) == 0 {
 			return
 		}
 
